@@ -668,6 +668,84 @@ class TplArg(K):
     def lib_tokens(self, r, cnt, env): return ["%s=%s" % (self.n, self.VALS[r % 4][1])]
 
 
+PT_VALS = [(0, "0.5"), (2147483646, "-2.25"), (-5, "1e10")]
+PT_YAML = {"decl": "struct Pt { int x; double y; };"}
+PT_HDR_C = "struct Pt { int x; double y; };\ntypedef struct Pt Pt;"
+PT_HDR_CXX = "struct Pt { int x; double y; };"
+
+
+class StructVal(K):
+    """a struct by value / by pointer / by reference, intent in or inout; the library prints the members and
+    (inout) changes them: x += 1, y *= 2"""
+    nvals = 3
+    lib_yaml = [PT_YAML]
+    lib_header = (PT_HDR_C, PT_HDR_CXX)
+    form = "val"      # val | ptr_in | ptr_inout | ref_in | ref_inout
+
+    def yaml(self):
+        return {"val": "Pt %s", "ptr_in": "const Pt *%s", "ptr_inout": "Pt *%s +intent(inout)", "ref_in": "const Pt &%s",
+                "ref_inout": "Pt &%s +intent(inout)"}[self.form] % self.n
+    def cparam(self, lang):
+        return {"val": "Pt %s", "ptr_in": "const Pt *%s", "ptr_inout": "Pt *%s", "ref_in": "const Pt &%s", "ref_inout": "Pt &%s"}[self.form] % self.n
+    def body(self, lang):
+        m = "->" if self.form.startswith("ptr") else "."
+        b = ['printf(" %s.x=i:%%d %s.y=d:%%.17g", %s%sx, %s%sy);' % (self.n, self.n, self.n, m, self.n, m)]
+        if self.form.endswith("inout"):
+            b += ["%s%sx += 1; %s%sy *= 2;" % (self.n, m, self.n, m)]
+        return b
+    def fdecl(self): return ["type(pt) :: %s" % self.n]
+    def fset(self, r):
+        x, y = PT_VALS[r % 3]
+        return ["%s%%x = %d_C_INT" % (self.n, x) if x >= 0 else "%s%%x = %d" % (self.n, x), "%s%%y = %s" % (self.n, fdbl(y))]
+    def fprint(self):
+        if not self.form.endswith("inout"):
+            return []
+        return ["call pint('%s.x', %s%%x)" % (self.n, self.n), "call pdbl('%s.y', %s%%y)" % (self.n, self.n)]
+    def lib_tokens(self, r, cnt, env):
+        x, y = PT_VALS[r % 3]
+        return ["%s.x=i:%d" % (self.n, x), "%s.y=d:%s" % (self.n, y)]
+    def f_tokens(self, r, cnt, env):
+        if not self.form.endswith("inout"):
+            return []
+        x, y = PT_VALS[r % 3]
+        return ["%s.x=i:%d" % (self.n, x + 1), "%s.y=d:%r" % (self.n, float(y) * 2)]
+
+
+class StructPtrIn(StructVal):
+    form = "ptr_in"
+
+
+class StructPtrInout(StructVal):
+    form = "ptr_inout"
+
+
+class StructRefIn(StructVal):
+    form = "ref_in"
+    cxx_only = True
+
+
+class StructRefInout(StructVal):
+    form = "ref_inout"
+    cxx_only = True
+
+
+LEVELS = [("BASE", 1), ("LOW", 11), ("LOW_PLUS", 12), ("HIGH", 21), ("HIGH_PLUS", 22), ("TOP", 23)]
+LEVEL_DECL = "enum Level { BASE = 1, LOW = BASE + 10, LOW_PLUS, HIGH = BASE + 20, HIGH_PLUS, TOP };"
+
+
+class EnumVal(K):
+    """an enumerator passed by its generated Fortran constant: two expression-valued members each followed by implicit ones"""
+    nvals = len(LEVELS)
+    lib_yaml = [{"decl": LEVEL_DECL}]
+    lib_header = (LEVEL_DECL, LEVEL_DECL)
+
+    def yaml(self): return "int %s" % self.n
+    def cparam(self, lang): return "int %s" % self.n
+    def body(self, lang): return ['printf(" %s=i:%%d", %s);' % (self.n, self.n)]
+    def factual(self, r): return LEVELS[r % len(LEVELS)][0].lower()
+    def lib_tokens(self, r, cnt, env): return ["%s=i:%d" % (self.n, LEVELS[r % len(LEVELS)][1])]
+
+
 class AssumedRank(K):
     """const int *v +dimension(..), int n: called with a scalar, a rank-1 and a rank-2 (= F_assumed_rank_max) actual"""
     nvals = 3
@@ -730,8 +808,9 @@ class GenArr(K):
 
 
 ARG_KINDS_C = [IntVal, DblVal, BoolVal, BoolOut, BoolInout, IntOut, IntInout, HiddenOut, ArrIn, ArrInout, ArrOut, ArrAllocOut,
-               PtrPtrOut, PtrPtrOutN, PtrPtrOut3, ArrAllocOutN, ImplText, CharArrIn, CstrIn, CstrOut, CstrInout]
-ARG_KINDS_CXX = ARG_KINDS_C + [IntRefOut, StringIn, StringOut, StringInout, VecIn, VecOut, VecOutAlloc, VecInout, VecInoutAlloc, VecStrIn]
+               PtrPtrOut, PtrPtrOutN, PtrPtrOut3, ArrAllocOutN, ImplText, CharArrIn, CstrIn, CstrOut, CstrInout,
+               StructVal, StructPtrIn, StructPtrInout, EnumVal]
+ARG_KINDS_CXX = ARG_KINDS_C + [IntRefOut, StringIn, StringOut, StringInout, VecIn, VecOut, VecOutAlloc, VecInout, VecInoutAlloc, VecStrIn, StructRefIn, StructRefInout]
 
 # ------------------------------------------------------------------ results
 # (tag, yaml type prefix, attrs, C return type, C return expression, Fortran decl, print call, expected fn(cnt), cxx_only)
@@ -790,6 +869,7 @@ class Func:
         self.name, self.res, self.args = name, res, args
         self.overload_of = overload_of
         self.cpp_if = cpp_if     # macro name: the library function and its wrappers exist only `#ifdef <macro>`
+        self.twice = False       # referenced twice with identical arguments inside one Fortran expression
 
     def is_template(self):
         return any(isinstance(a, TplArg) for a in self.args)
@@ -851,6 +931,15 @@ def generic_funcs(cxx, sfx):
           Func("gmax" + sfx, "int", [GenArr("values" + sfx)])]
     if sfx:
         fs.append(Func("gout" + sfx, "cstr", [GenDbl("gw" + sfx), CstrInout("gc" + sfx)]))
+    return fs
+
+
+def counter_spec():
+    """functions with hidden state (a call counter) and only by-value arguments, referenced twice with identical
+    arguments inside one expression; built at -O2: a PURE interface would let gfortran drop one of the calls"""
+    fs = [Func("tick", "int", [IntVal("ts")]), Func("tock", "int", []), Func("tack", "int", [DblVal("td"), BoolVal("tb")])]
+    for f in fs:
+        f.twice = True
     return fs
 
 
@@ -941,6 +1030,13 @@ def yaml_text(lib, funcs, cxx, options):
         if any(getattr(a, "needs_type_defines", False) for a in f.args):
             dd["fstatements"] = {"c": {"c_helper": "ShroudTypeDefines"}}   # SH_TYPE_ codes into types<lib>.h
         decls.append(dd)
+    pre = []
+    for f in funcs:
+        for a in f.args:
+            for y in getattr(a, "lib_yaml", []):
+                if y not in pre:
+                    pre.append(y)
+    decls = pre + decls
     d = {"library": lib, "cxx_header": lib + (".hpp" if cxx else ".h"), "language": "c++" if cxx else "c",
          "options": dict({"wrap_python": False, "wrap_lua": False}, **options), "declarations": decls}
     return yaml.safe_dump(d, sort_keys=False)
@@ -952,6 +1048,13 @@ def lib_sources(lib, funcs, cxx):
         hdr += ["#include <string>", "#include <vector>"]
     else:
         hdr += ["#include <stdbool.h>", "#include <stddef.h>"]
+    seen_h = []
+    for f in funcs:
+        for a in f.args:
+            h = getattr(a, "lib_header", None)
+            if h and h[1 if cxx else 0] not in seen_h:
+                seen_h.append(h[1 if cxx else 0])
+    hdr += seen_h
     src = ['#include "%s"' % (lib + (".hpp" if cxx else ".h")), "#include <stdio.h>", "#include <string.h>"]
     if any(getattr(a, "needs_type_defines", False) for f in funcs for a in f.args):
         src.append('#include "types%s.h"' % lib)
@@ -1093,6 +1196,8 @@ def driver_source(lib, funcs):
         actuals = ", ".join(a.factual(r) for a in vis)
         if f.res == "void":
             body.append("call %s(%s)" % (f.name, actuals))
+        elif f.twice:
+            body.append("rv_%s = %s(%s) + %s(%s)" % (f.res, f.name, actuals, f.name, actuals))
         else:
             op = RESULTS[f.res][8] if len(RESULTS[f.res]) > 8 else "="
             body.append("rv_%s %s %s(%s)" % (f.res, op, f.name, actuals))
@@ -1133,6 +1238,13 @@ def expected_trace(funcs, macros=()):
             if isinstance(a, HiddenOut):
                 lt += ["%s=hidden" % a.n]
         out.append(" ".join(["L %s%s" % (f.name, f.tagfor(r))] + lt))
+        if f.twice:
+            # the function is entered once per reference, whatever the optimisation level; an int result 40 + cnt each
+            cnt2 = cnt + 1
+            cnts[i] = cnt2
+            out.append(" ".join(["L %s%s" % (f.name, f.tagfor(r))] + lt))
+            out.append(" ".join(["F %s" % f.name, "rv=i:%d" % (40 + cnt + 40 + cnt2)] + ft))
+            continue
         fr = [RESULTS[f.res][6](cnt)] if f.res != "void" else []
         out.append(" ".join(["F %s" % f.name] + fr + ft))
     return out
@@ -1176,16 +1288,16 @@ def asan_flags(work):
     return _ASAN["f"]
 
 
-def build_and_run(d, lib, cxx, san, macros=()):
+def build_and_run(d, lib, cxx, san, macros=(), opt="-O0"):
     """compile everything in d; returns (stage, ok, output)"""
     cc = "g++" if cxx else "gcc"
     ext = ".cpp" if cxx else ".c"
     srcs = [f for f in sorted(os.listdir(d)) if f.endswith(ext)]
     fsrcs = [f for f in sorted(os.listdir(d)) if f.endswith(".f") and f.startswith("wrapf")]
     defs = ["-D" + m for m in macros]
-    cmds = [[cc, "-g", "-O0", "-I."] + defs + san + ["-c"] + srcs]
+    cmds = [[cc, "-g", opt, "-I."] + defs + san + ["-c"] + srcs]
     # module order: wrappers, then driver
-    cmds.append(["gfortran", "-g", "-O0", "-ffree-form", "-ffree-line-length-none", "-cpp"] + defs + san + ["-c"] + fsrcs + ["driver.f90"])
+    cmds.append(["gfortran", "-g", opt, "-ffree-form", "-ffree-line-length-none", "-cpp"] + defs + san + ["-c"] + fsrcs + ["driver.f90"])
     objs = [s[:-len(ext)] + ".o" for s in srcs] + [f[:-2] + ".o" for f in fsrcs] + ["driver.o"]
     cmds.append(["gfortran"] + san + objs + (["-lstdc++"] if cxx else []) + ["-o", "drv"])
     for c in cmds:
@@ -1223,7 +1335,8 @@ def first_diff(exp, got):
 KIND_OF = {
     "IntVal": ["native"], "DblVal": ["native"], "DefInt": ["native"], "DimArg": ["native"], "DimArg2": ["native"], "DimArg3": ["native"],
     "IntOut": ["native"], "IntInout": ["native"], "IntRefOut": ["native"], "HiddenOut": ["native"], "ArrIn": ["native"],
-    "ArrInout": ["native"], "ArrOut": ["native"], "AssumedRank": ["native"], "GenDbl": ["native"], "GenArr": ["native"], "TplArg": ["native"], "GenVoid": ["native"],
+    "ArrInout": ["native"], "ArrOut": ["native"], "AssumedRank": ["native"], "EnumVal": ["native"],
+    "StructVal": ["structArg"], "StructPtrIn": ["structArg"], "StructPtrInout": ["structArg"], "StructRefIn": ["structArg"], "StructRefInout": ["structArg"], "GenDbl": ["native"], "GenArr": ["native"], "TplArg": ["native"], "GenVoid": ["native"],
     "BoolVal": ["boolIn"], "BoolOut": ["boolOut"], "BoolInout": ["boolInout"],
     "CstrIn": ["charIn"], "CstrOut": ["charOut"], "CstrInout": ["charInout"], "ImplText": ["charInout"],
     "StringIn": ["stringIn"], "StringOut": ["stringOut"], "StringInout": ["stringInout"],
@@ -1240,7 +1353,7 @@ MODELLED_KINDS = ["boolIn", "boolOut", "boolInout", "charIn", "charOut", "charIn
                   "charResult", "stringResult", "charScalarResult", "native", "nativeOutAlloc", "vectorIn", "vectorOut",
                   "vectorOutAlloc", "vectorInout", "vectorInoutAlloc", "vectorResult", "vectorResultAlloc", "ptrPtrOut",
                   "resultPointer", "resultAlloc", "charArrayIn", "charResultAlloc", "stringResultAlloc", "stringValResultAlloc",
-                  "vecStrIn", "vecStrOut", "vecStrInout"]
+                  "vecStrIn", "vecStrOut", "vecStrInout", "structArg"]
 import collections as _collections
 KIND_RUNS = _collections.Counter()   # kind -> number of (function, configuration) executions whose trace matched
 
@@ -1254,7 +1367,7 @@ def _count_kinds(funcs, cfi):
             KIND_RUNS["%s/%s" % (KIND_OF_RES[f.res], "cfi" if cfi else "buf")] += 1
 
 
-def check_library(ctx, work, tag, lib, funcs, cxx, configs, workers=8, force=False, macros=()):
+def check_library(ctx, work, tag, lib, funcs, cxx, configs, workers=8, force=False, macros=(), opt="-O0"):
     """configs: list of (F_CFI, debug).  Returns number of configurations run."""
     exp = expected_trace(funcs, macros)
     san = asan_flags(work)
@@ -1272,14 +1385,14 @@ def check_library(ctx, work, tag, lib, funcs, cxx, configs, workers=8, force=Fal
         y, rc, out = generate(d, lib, funcs_cfi if cfi else all_funcs, cxx, {"F_CFI": bool(cfi), "debug": bool(dbg)})
         if rc != 0:
             return job, y, "shroud", False, out[-2000:]
-        stage, ok, out = build_and_run(d, lib, cxx, san, macros)
+        stage, ok, out = build_and_run(d, lib, cxx, san, macros, opt)
         return job, y, stage, ok, out
 
     with ThreadPoolExecutor(max_workers=workers) as ex:
         results = list(ex.map(one, jobs))
     for (d, cfi, dbg), y, stage, ok, out in results:
         ctx.count(1)
-        cfgname = {"language": "c++" if cxx else "c", "F_CFI": bool(cfi), "debug": bool(dbg), "defined_macros": list(macros)}
+        cfgname = {"language": "c++" if cxx else "c", "F_CFI": bool(cfi), "debug": bool(dbg), "defined_macros": list(macros), "optimisation": opt}
         if stage != "run":
             # which function?  C05 owns compilability; here it is reported because the call cannot be made at all
             fnames = sorted({f.name for f in (funcs_cfi if cfi else all_funcs)}, key=len, reverse=True)
